@@ -65,7 +65,12 @@ impl Map {
 
         let name = element.name.to_string();
 
-        for child in element.children.iter() {
+        // internal order of children changes when a child is re-added or marked optional,
+        // use the position of first insertion to assign identifiers in a stable order
+        let mut children: Vec<_> = element.children.iter().collect();
+        children.sort_by_key(|c| c.inner_t().position);
+
+        for child in children {
             let child_real_name = child.inner_t().name.to_string();
             let child_name = child_real_name.to_valid_key(&name);
             let child_name = reserved_names.create_unused_name(&child_name, Type::ChildElement);
